@@ -32,6 +32,9 @@ func (m *MSP[E]) UnmarshalCBOR(data []byte) error {
 	if err != nil {
 		return errs.Wrap(err).WithMessage("failed to unmarshal MSP from CBOR")
 	}
+	if dto == nil {
+		return errs.Wrap(serde.ErrNull).WithMessage("failed to unmarshal MSP from CBOR")
+	}
 	msp, err := NewMSP(dto.Matrix, dto.RowsToHolders)
 	if err != nil {
 		return errs.Wrap(err).WithMessage("invalid MSP data in CBOR")
